@@ -19,6 +19,7 @@
 #include <AIToolbox/MDP/Algorithms/Utils/PolicyEvaluation.hpp>
 #include <AIToolbox/MDP/Policies/Policy.hpp>
 #include <AIToolbox/MDP/Policies/QGreedyPolicy.hpp>
+#include <AIToolbox/Seeder.hpp>
 #include <unistd.h>
 #include <poll.h>
 #include <signal.h>
@@ -306,7 +307,7 @@ static void runAll(Rng & rng, const Gen & G, const std::string & tier, bool forc
             auto [var, vf, q] = vi(mod);
             { Line l = head("vi", false, rep, G); l << 100000u << tolVI << false << "|" << var; putVec(l, vf.values); l.nats(vf.actions); putMat(l, q); l.emit(); }
             auto qp = runPI(mod, rep, G, 100000, tolPI);
-            const bool piReturned = piOK;
+            const bool piReturned = piOK && qp.allFinite();
             auto lr = runLP(mod, rep, G);
             if (lr.ok && piReturned) {
                 Line l = head("agree", false, rep, G); l << tolVI << tolPI << lr.prec << "|";
@@ -339,7 +340,7 @@ static void runAll(Rng & rng, const Gen & G, const std::string & tier, bool forc
         auto [var, vf, q] = vi(th);
         { Line l = head("vi", false, "thompson", G2); l << 100000u << tolVI << false << "|" << var; putVec(l, vf.values); l.nats(vf.actions); putMat(l, q); l.emit(); }
         auto qp = runPI(th, "thompson", G2, 100000, tolPI);
-        const bool piReturned = piOK;
+        const bool piReturned = piOK && qp.allFinite();
         auto lr = runLP(th, "thompson", G2);
         if (lr.ok && piReturned) { Line l = head("agree", false, "thompson", G2); l << tolVI << tolPI << lr.prec << "|";
             putVec(l, vf.values); putActs(l, vf.actions); putMat(l, qp); putVec(l, lr.vf.values); putMat(l, lr.q); l.emit(); }
@@ -565,6 +566,37 @@ static void runBig(Rng & rng, int fixed, bool thorough = false) {
     if (vlp.size() == vvi.size()) emitXrep("lp_big", false, G, vlp);
 }
 
+// ---- (9) an ordinary small MDP on which PolicyIteration returns NaN (finding C01-3 at the ABSOLUTE threshold): S=2, A=4, gamma=3/4, rewards 0 / -0.75,
+// V* = 0 with several equally good actions.  While PI converges all Q(s,.) approach 0 and pass through a chain of gaps around 1e-6: round 2 meets the row
+// [-2.10749e-3, -2.10657e-3, -2.10696e-3, -2.10624e-3] -> getPolicy = [0,1,1,1] (weight 3), the evaluation diverges to -inf/NaN.
+// (Found by the random stream, quick seed 4 case 98, on a ThompsonModel sample; the tables below are that sample, bit for bit.)
+static void runSmallChainWitness(Rng & rng) {
+    Gen G; G.S = 2; G.A = 4; G.g = std::ldexp(3.0, -2); G.dyadic = false;
+    G.t = {{{std::ldexp(8486653175586151.0, -53), std::ldexp(1041092158309683.0, -54)}, {std::ldexp(4431706994406191.0, -52), std::ldexp(575141063714441.0, -55)}, {std::ldexp(8702890540251835.0, -53), std::ldexp(4868939431826513.0, -57)}, {std::ldexp(8995913040193113.0, -53), std::ldexp(11286214547879.0, -53)}},
+            {{std::ldexp(7640827666289283.0, -56), std::ldexp(8052095796454831.0, -53)}, {std::ldexp(2649299807161345.0, -52), std::ldexp(3708599640418301.0, -53)}, {std::ldexp(6781951722811997.0, -56), std::ldexp(2039863822347373.0, -51)}, {std::ldexp(2324508030074153.0, -52), std::ldexp(4358183194592685.0, -53)}}};
+    G.r = {{{std::ldexp(0.0, 0), std::ldexp(0.0, 0)}, {std::ldexp(0.0, 0), std::ldexp(0.0, 0)}, {std::ldexp(0.0, 0), std::ldexp(0.0, 0)}, {std::ldexp(0.0, 0), std::ldexp(0.0, 0)}},
+            {{std::ldexp(0.0, 0), std::ldexp(0.0, 0)}, {std::ldexp(0.0, 0), std::ldexp(0.0, 0)}, {std::ldexp(-3.0, -2), std::ldexp(-3.0, -2)}, {std::ldexp(0.0, 0), std::ldexp(0.0, 0)}}};
+    GenericModel generic{G.S, G.A, G.g, &G.t, &G.r};
+    // the rows are a posterior sample: normalised to rounding, which MDP::Model's constructor accepts
+    M::Model dense(G.S, G.A, G.t, G.r, G.g);
+    M::SparseModel sparse(G.S, G.A, G.t, G.r, G.g);
+    Warm none; (void)rng;
+    auto one = [&](const auto & mod, const char * rep) {
+        M::ValueIteration vi(100000, 1e-3);
+        auto [var, vf, q] = vi(mod);
+        { Line l = head("vi", false, rep, G); l << 100000u << 1e-3 << false << "|" << var; putVec(l, vf.values); l.nats(vf.actions); putMat(l, q); l.emit(); }
+        auto qp = runPI(mod, rep, G, 100000, 1e-3);
+        const bool piReturned = piOK;
+        auto lr = runLP(mod, rep, G);
+        if (lr.ok && piReturned && qp.allFinite()) {
+            Line l = head("agree", false, rep, G); l << 1e-3 << 1e-3 << lr.prec << "|";
+            putVec(l, vf.values); putActs(l, vf.actions); putMat(l, qp); putVec(l, lr.vf.values); putMat(l, lr.q); l.emit();
+        }
+    };
+    one(dense, "dense"); one(sparse, "sparse"); one(generic, "generic");
+    std::printf("#stat small_chain_witness 1\n");
+}
+
 long verif::verif_ncases(const std::string & tier) { return tier == "thorough" ? 800 : 160; }
 
 // hand-written low-index cases
@@ -588,9 +620,11 @@ static Gen fixedCase(long idx) {
 }
 
 void verif::verif_case(Rng & rng, long idx, const std::string & tier) {
+    AIToolbox::Seeder::setRootSeed((unsigned)rng.next());     // ThompsonModel & co. draw from the library's global seeder: make every case replayable
     if (idx < 3) { Gen G = fixedCase(idx); runAll(rng, G, tier, idx == 2); return; }
     if (idx < 7) { runBig(rng, (int)idx - 3); return; }                       // fixed large-scale near-tie witnesses
     if (idx < 10) { runGreedyTable(rng, idx == 7 ? 1 : idx == 8 ? 3 : 2); return; }   // fixed greedy rows: chains at both thresholds
+    if (idx == 10) { runSmallChainWitness(rng); return; }
     if (idx % 8 == 5) { runBig(rng, -1, tier == "thorough"); for (int k = 0; k < 6; ++k) runGreedyTable(rng, -1); return; }
     const bool ugly = (idx % 4 == 3);
     Gen G = genMDP(rng, tier, ugly);
